@@ -40,7 +40,8 @@ ObsOf(e, fz) ==
   [x |-> e.x, msg |-> e.msg, success |-> e.success, nit |-> e.nit, nfev |-> e.nfev,
    njev |-> e.njev, funOk |-> e.funOk, jacOk |-> e.jacOk, pg |-> e.pg, leT |-> e.leT,
    fr |-> e.fr, prov |-> [i \in DOMAIN e.prov |-> <<e.prov[i][1], e.prov[i][2]>>],
-   yOk |-> [i \in DOMAIN e.prov |-> e.prov[i][3]], syPos |-> e.syPos, frozen |-> fz]
+   yOk |-> [i \in DOMAIN e.prov |-> e.prov[i][3]], exact |-> [i \in DOMAIN e.prov |-> e.prov[i][4]], yAp |-> [i \in DOMAIN e.prov |-> e.prov[i][5]],
+   syPos |-> e.syPos, frozen |-> fz]
 
 Feas(e, site) == Flag("C02_EvalInBox@" \o site, e.inbox) \cup Flag("C02_FixedMoved@" \o site, e.fixed)
 
